@@ -34,7 +34,7 @@ ASSUMPTIONS = [
     "Exp with num_steps (Trotter approximation) is not compared exactly (C58).",
     "simplify idempotence is recorded (label simplify:not-idempotent) but not asserted: the statement only requires the linear map to be kept.",
 ]
-BUDGET = {"quick": {"examples": 1600}, "thorough": {"examples": 40000, "shards": 16}}
+BUDGET = {"quick": {"examples": 1000}, "thorough": {"examples": 40000, "shards": 16}}
 SHRINK_LISTS = ("operands",)
 
 TOL = 1e-8
@@ -44,6 +44,8 @@ CPLX = st.one_of(REAL, st.tuples(gen.floats01, gen.floats01).map(lambda t: {"c":
 PHASE = gen.angles().map(lambda a: {"c": [round(float(np.cos(a)), 12), round(float(np.sin(a)), 12)]})
 FRAC = st.sampled_from([0.5, -0.5, 0.25, 1.5, 1 / 3, -1.7, 2.5])
 
+CONTROLLED_LEAVES = ["CNOT", "CY", "CZ", "CH", "CRX", "CRY", "CRZ", "CRot", "ControlledPhaseShift", "Toffoli", "CSWAP", "CCZ",
+                     "MultiControlledX", "ControlledQubitUnitary"]
 HERM_NAMES = ["PauliX", "PauliY", "PauliZ", "Hadamard", "Identity", "Hermitian", "Projector"]
 
 
@@ -143,7 +145,12 @@ def expr(draw, wires, depth, kind):
         k = draw(st.integers(1, min(2, len(wires) - 1)))
         nw = draw(st.integers(0, 1)) if len(wires) - k >= 2 else 0
         cws, rest = draw(_split(wires, k + nw))
-        out = {"op": "ctrl", "base": draw(expr(rest, d, "U" if kind == "U" else draw(st.sampled_from(["U", "U", "M"])))), "cw": cws[:k],
+        ctrl_leaves = [n for n in CONTROLLED_LEAVES if zoo.ZOO[n][1] <= len(rest)]
+        if ctrl_leaves and draw(st.integers(0, 9)) < 3:  # controlled version of an already controlled gate (nested controls)
+            base = draw(st.sampled_from(ctrl_leaves).flatmap(lambda n: zoo.ZOO[n][0](rest)))
+        else:
+            base = draw(expr(rest, d, "U" if kind == "U" else draw(st.sampled_from(["U", "U", "M"]))))
+        out = {"op": "ctrl", "base": base, "cw": cws[:k],
                "cv": draw(st.lists(st.integers(0, 1), min_size=k, max_size=k)), "via": draw(st.sampled_from(["ctrl", "ctrl", "class", "callable"]))}
         if draw(st.booleans()):
             out["cv"] = None if all(out["cv"]) else out["cv"]
